@@ -25,6 +25,9 @@ def KeySoundOn {Req Resp : Type} (m : Mech Req Resp) (rs : List Req) : Prop :=
   ∀ r ∈ rs, ∀ r' ∈ rs, m.key r = m.key r' →
     m.fresh r = m.fresh r' ∧ (m.recheck = true ∨ ∀ v, m.accept r v = m.accept r' v)
 
+/-- a value read back from the cache is the value that was stored (the serialisation used for caching loses nothing) -/
+def Lossless {Req Resp : Type} (m : Mech Req Resp) : Prop := ∀ v, m.recode v = v
+
 /-- `H` separates the byte strings it is applied to in this history -/
 def NoCollisionOn (H : Bytes → Bytes) (pre : List Bytes) : Prop :=
   ∀ a ∈ pre, ∀ b ∈ pre, H a = H b → a = b
